@@ -5,6 +5,7 @@ import Driver.Pop3
 import Driver.San
 import Driver.Broker
 import Driver.Hub
+import Driver.Shutdown
 open Driver
 
 /-
@@ -20,5 +21,6 @@ def main (args : List String) : IO UInt32 := do
   | ["san"] => runLoop (fun (_ : Unit) toks => ((), (sanHandler toks).getD "bad-op")) ()
   | ["broker"] => runLoop brokerStep {}
   | ["hub"] => Driver.HubMode.main
+  | ["shutdown"] => runLoop (fun (_ : Unit) toks => ((), shutdownHandler toks)) ()
   | _ => IO.eprintln s!"unknown mode {args}"; return 2
   return 0
